@@ -130,7 +130,7 @@ def calls_chain(stmts):
 SAFE_CALLS = {"add_note", "items", "join", "format", "str", "repr", "type", "len", "info", "debug", "warning", "error", "exception", "warn", "getLogger", "isinstance", "getattr"}
 
 
-def handler_can_only_reraise(h: ast.ExceptHandler):
+def handler_can_only_reraise(h: ast.ExceptHandler, module_functions=None, depth=0):
     """The statements before the final bare `raise` cannot themselves fail in a way the contracts know of: notes, string formatting, logging,
     version checks, loops over a mapping's items. Returns the text of the first statement outside that fragment (None: all inside)."""
     def safe_expr(e):
@@ -139,7 +139,13 @@ def handler_can_only_reraise(h: ast.ExceptHandler):
                 f = n.func
                 nm = f.id if isinstance(f, ast.Name) else f.attr if isinstance(f, ast.Attribute) else None
                 if nm not in SAFE_CALLS:
-                    return False
+                    # a helper of the same module whose own body stays inside the fragment (e.g. the note-building code moved into a function)
+                    helper = (module_functions or {}).get(nm) if isinstance(f, ast.Name) else None
+                    if helper is None or depth >= 2:
+                        return False
+                    fake = ast.ExceptHandler(type=None, name=None, body=[x for x in helper.body if not (isinstance(x, ast.Expr) and isinstance(x.value, ast.Constant))])
+                    if handler_can_only_reraise(fake, module_functions, depth + 1) is not None:
+                        return False
             if isinstance(n, (ast.Await, ast.Yield, ast.YieldFrom, ast.Subscript)) and not isinstance(getattr(n, "ctx", None), ast.Load):
                 return False
         return True
@@ -221,7 +227,7 @@ def no_swallow(u: Unit):
                         u.static(f"no_swallow[{fn.qualname.split('::')[1]}:{h.lineno}]", ok, fn.qualname,
                                  f"except {', '.join(tnames)} around {inner}() at line {h.lineno} " + ("re-raises the same object" if ok else "does not end with a bare raise"),
                                  witness={"function": fn.qualname, "line": h.lineno}, replay=SINGLE_REPLAY)
-                        odd = handler_can_only_reraise(h) if ok else None
+                        odd = handler_can_only_reraise(h, {k: v.node for k, v in mi.functions.items()}) if ok else None
                         if odd is not None:
                             # work done in the handler before the re-raise may itself raise and replace the model's exception: not decided on
                             # the syntax alone -> undecided, the native stand-in (a failure after files were written) decides
